@@ -10,7 +10,7 @@ from ..rules import typestate as ts
 from ..rules.gvn import GVN, f_key
 from ..rules.match import (m_binop, m_cmp, m_method, m_where, peel_guards, product_factors, strip_real,
                            strip_reshape, sum_terms)
-from ..symex import (T, Evaluator, call_parts, const, func_name, getitem, is_const, match_scan, mk, show, strip_wrappers,
+from ..symex import (T, Evaluator, array_fn, call_parts, const, func_name, getitem, is_const, match_scan, mk, show, strip_wrappers,
                      subterms, sym)
 
 ID = "C10"
@@ -395,7 +395,79 @@ def analyse_class(ctx, cls: str, fast: bool):
     return run_, step, result
 
 
+def _num(t: T) -> Optional[float]:
+    """numeric value of a constant expression (2**0.5, sqrt(2.0), 1/2 ...), None if not constant"""
+    t = strip_wrappers(t)
+    if t.op == "const" and isinstance(t.args[0], (int, float)) and not isinstance(t.args[0], bool):
+        return float(t.args[0])
+    if t.op == "binop":
+        a, b = _num(t.args[1]), _num(t.args[2])
+        if a is None or b is None:
+            return None
+        try:
+            return {"+": a + b, "-": a - b, "*": a * b, "/": a / b, "**": a ** b}.get(t.args[0])
+        except (ZeroDivisionError, OverflowError, ValueError):
+            return None
+    if t.op == "call" and array_fn(t) == "sqrt" and call_parts(t)[1]:
+        a = _num(call_parts(t)[1][0])
+        return a ** 0.5 if a is not None and a >= 0 else None
+    return None
+
+
+def uniform_variate(ctx):
+    """DET-1 (distribution of the selector).  The discrete field is chosen by comparing a variate with the field-0
+    probability, which is unbiased only if the variate is uniform on (0, 1).  The samplers feed standard normal
+    numbers, so the map must be the normal CDF: (erf(g / sqrt 2) + 1) / 2, or ndtr(g).  A CDF applied to a rescaled
+    argument (ndtr(g / sqrt 2), erf(g)) is not uniform and biases every selection whose probability is not 1/2."""
+    import math
+    p = ctx.p
+    n = 0
+    for cls in ("propagator_cpmc", "propagator_cpmc_slow", "propagator_cpmc_nn", "propagator_cpmc_nn_slow"):
+        step = p.lookup_method(P + cls, "propagate")
+        if step is None:
+            continue
+        run_ = G.StepRun(p, step, P + cls)
+        prm = step.pos_params()
+        if len(prm) < 5:
+            continue
+        fields = sym(prm[4].name)        # propagate(self, trial, ham_data, prop_data, <fields>, wave_data)
+        seen = set()
+        for e in run_.events:
+            if e.kind != "call" or not hasattr(e.data, "op"):
+                continue
+            t = e.data
+            fn = array_fn(t) or (func_name(t) or "").split(".")[-1]
+            if fn not in ("erf", "ndtr", "cdf") or t.uid in seen or not call_parts(t)[1]:
+                continue
+            seen.add(t.uid)
+            arg = strip_wrappers(call_parts(t)[1][0])
+            if not any(x is fields for x in subterms(arg)):
+                continue
+            scale = 1.0
+            q = m_binop(arg, "/")
+            if q is not None and _num(q[1]) is not None:
+                scale = 1.0 / _num(q[1])
+            else:
+                q = m_binop(arg, "*")
+                if q is not None and (_num(q[0]) is not None or _num(q[1]) is not None):
+                    scale = _num(q[0]) if _num(q[0]) is not None else _num(q[1])
+                elif arg.op == "binop":
+                    ctx.rep.note(f"{cls}.propagate: argument of {fn} is not a rescaled field array; uniform-variate "
+                                 f"rule not applicable")
+                    continue
+            want = 1.0 / math.sqrt(2.0) if fn == "erf" else 1.0
+            n += 1
+            ctx.ob("DET-1", f"{cls}.propagate: the selector variate is the normal CDF of the Gaussian field "
+                   f"({'erf(g / sqrt 2)' if fn == 'erf' else fn + '(g)'})", abs(scale - want) < 1e-9,
+                   f"{fn}(g * {scale:.6g})" + ("" if abs(scale - want) < 1e-9 else f": a uniform variate needs scale {want:.6g}"),
+                   step, line=e.line)
+    if n == 0:
+        ctx.rep.note("no erf / ndtr conversion of the Gaussian fields found in the CPMC propagators; uniform-variate rule "
+                     "not applicable")
+
+
 def run(ctx):
+    uniform_variate(ctx)
     p = ctx.p
     pairs = [("propagator_cpmc", "propagator_cpmc_slow"), ("propagator_cpmc_nn", "propagator_cpmc_nn_slow")]
     n_blocks = 0
